@@ -23,6 +23,7 @@ require (
 	github.com/charmbracelet/x/term v0.2.1 // indirect
 	github.com/elk-language/go-prompt v1.3.1 // indirect
 	github.com/google/go-cmp v0.6.0 // indirect
+	github.com/k0kubun/pp/v3 v3.3.0 // indirect
 	github.com/lucasb-eyer/go-colorful v1.2.0 // indirect
 	github.com/mattn/go-colorable v0.1.14 // indirect
 	github.com/mattn/go-isatty v0.0.20 // indirect
@@ -33,8 +34,11 @@ require (
 	github.com/pkg/term v1.2.0-beta.2 // indirect
 	github.com/xo/terminfo v0.0.0-20220910002029-abceb7e1c41e // indirect
 	golang.org/x/exp v0.0.0-20250305212735-054e65f0b394 // indirect
+	golang.org/x/mod v0.34.0 // indirect
 	golang.org/x/sync v0.20.0 // indirect
 	golang.org/x/sys v0.42.0 // indirect
+	golang.org/x/text v0.8.0 // indirect
+	golang.org/x/tools v0.43.0 // indirect
 )
 
 replace github.com/elk-language/elk => /repo
